@@ -107,6 +107,7 @@ def gen_calls(rng, thorough):
     k = 0
     while k < (300 if thorough else 50):
         c = c10.gen_getmetric(rng, n)
+        c.pop("replaced", None)          # (refers to a place in the list of registrations, which the variants reorder)
         if len(c["axes"]) == 3 and len(c["reg"]) >= 3:
             add("c10", c)
             k += 1
